@@ -229,6 +229,10 @@ func runC11(w *World, r *Report) {
 			r.check(listOK, "forward-after-accept", row.handler+"/list-from-set", lineOf(w, fw.c), "the outgoing gossiper list is the verified set plus self", "list not rebuilt from the set before forwarding")
 		}
 	}
+	// membership is edited by joining, never by carrying messages: an item an honest peer refuses (parent not yet there,
+	// duplicate) says nothing about the peer, and a peer that was dropped from the table is never forwarded to again
+	membershipNotEditedByForwarding(w, r, "membership-not-edited-by-forwarding")
+
 	// every way out of a gossip handler is one of the protocol's own decisions: malformed message, a failed step, item seen,
 	// node already listed — or comes after the item was processed. A refusal that depends on anything else (the wall clock,
 	// the size of the peer table, …) loses the item for this node and everything behind it.
@@ -991,6 +995,37 @@ func runC12(w *World, r *Report) {
 			r.check(good, "decisions-on-verified-set", shortFn(fn)+"/lookup("+pathOf(l.Index)+")", lineOf(w, l), "membership decision uses a verified set", "map originates from "+desc)
 		})
 	}
+
+	// the set decides by membership: "peer P is informed" is P's own valid signature being in the set, never the number
+	// of valid signatures (anyone can mint keys and sign the statement for them)
+	r.rule("set-decides-by-membership", "no branch depends on the size of the verified gossiper set: the set is consulted by key lookup, extended by the node's own entry and turned into the forwarded list", 1)
+	nSets := 0
+	for _, fn := range w.RepoFuncs("gossip") {
+		for _, c := range callsTo(fn, cn("gossip", "*gossiper", "verifyGossipers")) {
+			cv, ok := c.(ssa.Value)
+			if !ok {
+				continue
+			}
+			nSets++
+			tf := &tableFollower{w: w, seenV: map[ssa.Value]bool{}, seenCell: map[ssa.Value]bool{}}
+			tf.value(cv)
+			bad := ""
+			for _, a := range tf.accs {
+				if a.what != "len" {
+					continue
+				}
+				if lv, isV := a.in.(ssa.Value); isV {
+					if at := flowsToBranch(w, lv, 4, map[ssa.Value]bool{}); at != nil {
+						bad += fmt.Sprintf(" len(set) at %s decides the branch at %s;", lineOf(w, a.in), lineOf(w, at))
+					}
+				}
+			}
+			r.check(bad == "", "set-decides-by-membership", shortFn(fn)+"/verifyGossipers", lineOf(w, c), "the verified set is used by membership only", bad)
+		}
+	}
+	if nSets == 0 {
+		r.bad("set-decides-by-membership", "verifyGossipers", "-", "calls of verifyGossipers are found", "none")
+	}
 }
 
 // verifiedSetValue: does map value v (in function fn) originate from verifyGossipers, from a literal
@@ -1046,4 +1081,141 @@ func verifiedSetValue(w *World, v ssa.Value, fn *ssa.Function, depth int) bool {
 		}
 	}
 	return ok && n > 0
+}
+
+
+// membershipNotEditedByForwarding: no write of the peer table (update, delete, clear, replacement — aliases followed) is
+// reachable, through calls, go statements and function literals, from the functions that carry items: the gossip
+// handlers, the two origin loops, the forward helpers and the missing-parent fetch.
+func membershipNotEditedByForwarding(w *World, r *Report, rule string) {
+	r.rule(rule, "no write of the gossiper's peer table is reachable from the functions that receive, originate or forward items (GossipVrx, GossipTrx, the gossip process loops, the forward helpers, the missing-parent fetch): the table changes only when a peer joins (Announce / Discover / start-up discovery) and at shutdown", 4)
+	roots := []string{"GossipVrx", "GossipTrx", "GetVertex", "LoadDag", "runVertexGossipProcess", "runTransactionGossipProcess", "gossipVertex", "gossipTransaction", "processLackingParent", "sendToAccountant"}
+	var writes []tableAccess
+	nTables := 0
+	for _, ti := range collectTables(w, "gossip") {
+		if !strings.HasPrefix(ti.sp.tn, "gossip.") {
+			continue
+		}
+		nTables++
+		for _, a := range ti.tf.accs {
+			if a.write {
+				writes = append(writes, a)
+			}
+		}
+	}
+	if nTables == 0 || len(writes) == 0 {
+		r.bad(rule, "peer-table", "-", "the peer table and its writers are found", fmt.Sprintf("tables=%d writes=%d", nTables, len(writes)))
+		return
+	}
+	for _, name := range roots {
+		fn := w.Func("gossip", "gossiper", name)
+		if fn == nil {
+			continue // a role that does not exist (any more) carries nothing
+		}
+		reach := reachableFuncs(w, fn)
+		bad := ""
+		for _, a := range writes {
+			f := a.in.Parent()
+			top := f
+			for top.Parent() != nil {
+				top = top.Parent()
+			}
+			if reach[f] || reach[top] {
+				bad += fmt.Sprintf(" %s of the peer table in %s at %s;", a.what, shortFn(f), lineOf(w, a.at))
+			}
+		}
+		r.seen(shortFn(fn))
+		r.check(bad == "", rule, name, w.Pos(fn.Pos()), "carrying an item never edits the membership", "reachable from "+name+":"+bad)
+	}
+}
+
+
+// flowsToBranch: does value v (through arithmetic, comparisons, conversions, φ, helper parameters and helper results)
+// reach the condition of a branch? Returns the branch.
+func flowsToBranch(w *World, v ssa.Value, depth int, seen map[ssa.Value]bool) ssa.Instruction {
+	if v == nil || seen[v] || depth < 0 {
+		return nil
+	}
+	seen[v] = true
+	refs := v.Referrers()
+	if refs == nil {
+		return nil
+	}
+	for _, ref := range *refs {
+		switch x := ref.(type) {
+		case *ssa.If:
+			return x
+		case *ssa.BinOp:
+			if at := flowsToBranch(w, x, depth, seen); at != nil {
+				return at
+			}
+		case *ssa.UnOp:
+			if at := flowsToBranch(w, x, depth, seen); at != nil {
+				return at
+			}
+		case *ssa.Convert:
+			if at := flowsToBranch(w, x, depth, seen); at != nil {
+				return at
+			}
+		case *ssa.ChangeType:
+			if at := flowsToBranch(w, x, depth, seen); at != nil {
+				return at
+			}
+		case *ssa.Phi:
+			if at := flowsToBranch(w, x, depth, seen); at != nil {
+				return at
+			}
+		case *ssa.Store:
+			// a local cell (named result spilled because of a defer, a plain local variable)
+			if al, ok := x.Addr.(*ssa.Alloc); ok && x.Val == v {
+				for _, lr := range *al.Referrers() {
+					if ld, ok := lr.(*ssa.UnOp); ok && ld.Op == token.MUL {
+						if at := flowsToBranch(w, ld, depth, seen); at != nil {
+							return at
+						}
+					}
+				}
+			}
+		case *ssa.Return:
+			fn := x.Parent()
+			idx := -1
+			for i, rv := range x.Results {
+				if rv == v {
+					idx = i
+				}
+			}
+			for _, cs := range staticCallers(w, fn) {
+				cv, ok := cs.(ssa.Value)
+				if !ok {
+					continue
+				}
+				if len(x.Results) == 1 {
+					if at := flowsToBranch(w, cv, depth-1, seen); at != nil {
+						return at
+					}
+					continue
+				}
+				for _, r2 := range *cv.Referrers() {
+					if ex, ok := r2.(*ssa.Extract); ok && ex.Index == idx {
+						if at := flowsToBranch(w, ex, depth-1, seen); at != nil {
+							return at
+						}
+					}
+				}
+			}
+		case ssa.CallInstruction:
+			cal := x.Common().StaticCallee()
+			if cal == nil || !isRepoFunc(cal) || len(cal.Blocks) == 0 {
+				continue
+			}
+			for k, a := range x.Common().Args {
+				if a == v && k < len(cal.Params) {
+					if at := flowsToBranch(w, cal.Params[k], depth-1, seen); at != nil {
+						return at
+					}
+				}
+			}
+		}
+	}
+	return nil
 }
